@@ -323,5 +323,5 @@ def check_seq(c, rec):
 
 
 def subchecks():
-    return [SubCheck("histories", check_history, histories, quick=400, thorough=4000, shards_quick=8, shards_thorough=16),
+    return [SubCheck("histories", check_history, histories, quick=900, thorough=4000, shards_quick=8, shards_thorough=16),
             SubCheck("sequential", check_seq, seq_cases, quick=300, thorough=3000)]
